@@ -146,7 +146,9 @@ fn run_mask<D: SimData>(sc: &Sc06, mask: u64, seen: &mut BTreeMap<(usize, usize)
         st.u64(v as u64);
         st.u64(frames.len() as u64);
         out.state(st.finish());
-        if ins == Some(Instruction::Reapply) {
+        // the builder compiles `^~` to UpdateValue + JumpTo back to the expression's entry (the Reapply
+        // instruction itself is never emitted): a backward jump re-enters a loop head
+        if ins == Some(Instruction::Reapply) || (ins == Some(Instruction::JumpTo) && d.get_instruction_cursor() <= pc && res == StepResult::Running) {
             after_reapply = true;
         }
         match res {
@@ -273,7 +275,7 @@ impl Campaign for C06 {
             }
             _ => g.program(),
         };
-        let src = prog.top();
+        let src = g.print(&prog);
         let mut idents: Vec<String> = vec![];
         for i in g.used_idents.iter() {
             if !idents.contains(i) {
